@@ -65,3 +65,15 @@ pub fn vf_min_usize(a: usize, b: usize) -> (r: usize) ensures r == (if a <= b { 
 // unary minus on floats is not supported by this Verus build: `-x` is rewritten to vf_neg(x)
 #[verifier::external_body]
 pub fn vf_neg(a: f64) -> (r: f64) ensures rv(r) == -rv(a) { -a }
+
+// R1b target: `X.partition_point(|v| *v < Y)` / `<= Y` (assumed std contract; sorted input)
+#[verifier::external_body]
+pub fn vf_partition_point_lt(s: &Vec<f64>, x: f64) -> (r: usize)
+    requires sorted(s@)
+    ensures r <= s.len(), forall|j: int| 0 <= j < r ==> rv(#[trigger] s[j]) < rv(x), forall|j: int| r <= j < s.len() ==> rv(#[trigger] s[j]) >= rv(x)
+{ unimplemented!() }
+#[verifier::external_body]
+pub fn vf_partition_point_le(s: &Vec<f64>, x: f64) -> (r: usize)
+    requires sorted(s@)
+    ensures r <= s.len(), forall|j: int| 0 <= j < r ==> rv(#[trigger] s[j]) <= rv(x), forall|j: int| r <= j < s.len() ==> rv(#[trigger] s[j]) > rv(x)
+{ unimplemented!() }
